@@ -125,6 +125,17 @@ def _validate_props_group(
                 raise ValueError(
                     f"Varlength property {prop_name} values array does not have type uint64"
                 )
+            # one (offset, *shape) row per element, pointing into a flat data array
+            if val_arr.ndim != 2:
+                raise ValueError(
+                    f"Varlength property {prop_name} values array must be 2D, "
+                    f"received shape {val_arr.shape}"
+                )
+            if data_arr.ndim != 1:
+                raise ValueError(
+                    f"Varlength property {prop_name} data array must be 1D, "
+                    f"received shape {data_arr.shape}"
+                )
             # data array dtype should match metadata dtype
             if not np.issubdtype(data_arr.dtype, np.dtype(prop_metadata.dtype)):
                 raise ValueError(
